@@ -294,16 +294,17 @@ def inline_new_functions(F, baseline=None):
 # The closure's MIR is inlined where it is applied.  The plain view stays the primary one; a property whose rules do
 # not all pass on the plain view is evaluated again on this view, and the better verdict counts: both are faithful
 # representations of the same program, and every rule fails closed on what it cannot find.
-RES, OPT = 'core::result::Result', 'core::option::Option'
+RES, OPT, POLL = 'core::result::Result', 'core::option::Option', 'core::task::poll::Poll'
 # callee -> (enum, variant that is transformed, how): how in wrap(same variant) | flat | unwrap ; the other variant: keep | payload | wrap_err
 COMB = {
     RES + '::map': (RES, 'Ok', 'wrap', 'keep'), RES + '::map_err': (RES, 'Err', 'wrap', 'keep'), RES + '::and_then': (RES, 'Ok', 'flat', 'keep'),
     RES + '::or_else': (RES, 'Err', 'flat', 'keep'), RES + '::unwrap_or_else': (RES, 'Err', 'flat', 'payload'),
     OPT + '::map': (OPT, 'Some', 'wrap', 'keep'), OPT + '::and_then': (OPT, 'Some', 'flat', 'keep'),
     OPT + '::unwrap_or_else': (OPT, 'None', 'flat', 'payload'), OPT + '::ok_or_else': (OPT, 'None', 'wrap_err', 'wrap_ok'),
+    POLL + '::map': (POLL, 'Ready', 'wrap', 'keep'),        # Ready(v) => Ready(f(v)), Pending => Pending
 }
-VAR = {RES: {'Ok': 0, 'Err': 1}, OPT: {'None': 0, 'Some': 1}}
-HAS_PAYLOAD = {'Ok': True, 'Err': True, 'Some': True, 'None': False}
+VAR = {RES: {'Ok': 0, 'Err': 1}, OPT: {'None': 0, 'Some': 1}, POLL: {'Ready': 0, 'Pending': 1}}
+HAS_PAYLOAD = {'Ok': True, 'Err': True, 'Some': True, 'None': False, 'Ready': True, 'Pending': False}
 
 
 def _closure_of(body, operand):
